@@ -36,6 +36,10 @@ CHECKS = {
    technique="explicit enumeration of all edit histories up to a depth over the public API (stateless: every history replayed from scratch on a fresh module), crossed with every placement of one (two) observer calls; differential oracle against the observer-free history",
    text="All histories of <=4 (thorough <=5) edit operations from a 33-operation alphabet (append/insert/remove instructions, set/replace terminators, name/rename/unname values, blocks and globals, add globals/functions/blocks, name a struct type already in use, append/prepend metadata) are enumerated by breadth-first expansion of enabled operations; for each history every placement of one observer out of 9 kinds (String, WriteTo, LLString of functions/blocks/instructions, Type/Ident/String, Operands, Succs, explicit ID assignment) at every position is executed, and every placement of two observers for histories of length <=3 (4): about 3.2e6 runs in quick. The final String() must equal that of the observer-free history, must not panic on a complete module, and must be stable when repeated; observers on incomplete modules may panic (recovered) but must leave no trace.",
    note="Known findings (print-then-renumbering-edit panics / metadata renumbering) are listed in known_findings.json by panic site + first renumbering edit kind; functions/blocks are bounded (2 functions, 3 blocks); operand replacement edits belong to C15."),
+ "C15": dict(level="model_checking", design="§2 C15",
+   technique="exhaustive enumeration over every instruction/terminator kind (listed from the current source) x operand-list shapes x every operand slot: reflective slot model vs Operands(), write-through and substitute-all oracles on printed text, Succs() vs printed targets, before and after list edits and caller-slice mutation",
+   text="A catalogue module instantiates all 54 instruction and 12 terminator kinds (the kind list comes from go/types at check time; a kind without an instance is a machinery error) with every optional operand present/absent and lists of length 0,1,2. For every user: Operands() must equal the set of value-typed slots found by reflection over the struct (so a field added later is demanded automatically), before and after replacing list elements / reallocating argument slices; through every slot a uniquely named same-typed replacement is written and exactly that occurrence of the printed instruction must change and be restorable; every value of every function is substituted through all users and must vanish from their text; Succs() must equal the printed `label` targets in order and stay inside the function, also after writing another block through each target slot; constructor-built users are re-checked after the caller mutates the slices it passed in.",
+   note="One instance per (kind, shape), fixed operand types; reflection treats helper structs of package ir that are not values (Case, Incoming, Clause, OperandBundle) as parts of the user; metadata-wrapped values are not counted as operand slots."),
 }
 
 NOT_APPLICABLE = {}
